@@ -7,7 +7,8 @@
 //   strict S | ioc S | enable S | disable S | check S | clear S | left S
 //   expect S <N|one|no> F [o:ID] [p:NAME:T:V] [out:NAME:HEX] [ret:T:V] [iop] ...   (applied in order)
 //   call S F [o:ID] [p:NAME:T:V] [out:NAME] ... [r]                                 (applied in order; r last)
-//   T:V = i:<int> u:<unsigned> s:<hex bytes> p:<id> cp:<id> b:<0|1> m:<hex bytes>
+//   T:V = i:<int> u:<unsigned> l:<long> ul:<unsigned long> ll:<long long> ull:<unsigned long long>
+//         s:<hex bytes> p:<id> cp:<id> b:<0|1> m:<hex bytes>   (return values: i u s p cp b)
 // observations: ret none | ret T:V, out NAME <8 bytes hex>, left 0|1, fail <first line of the message>
 #include <deque>
 #include "fixture.h"
@@ -56,8 +57,8 @@ bool is_name(const std::string& s) {
     return true;
 }
 bool valid_val(const std::string& t, const std::string& v) {
-    if (t == "i") return is_num(v, true);
-    if (t == "u" || t == "p" || t == "cp") return is_num(v, false);
+    if (t == "i" || t == "l" || t == "ll") return is_num(v, true);
+    if (t == "u" || t == "ul" || t == "ull" || t == "p" || t == "cp") return is_num(v, false);
     if (t == "b") return v == "0" || v == "1";
     if (t == "s" || t == "m") return is_hex(v);
     return false;
@@ -93,7 +94,8 @@ struct Scenario {
             if (f.size() == 2 && f[0] == "o" && is_num(f[1], false)) continue;
             if (f.size() == 4 && f[0] == "p" && is_name(f[1]) && valid_val(f[2], f[3])) continue;
             if (f.size() == 3 && f[0] == "out" && is_name(f[1]) && is_hex(f[2]) && vh::unhex(f[2]).size() <= 8) continue;
-            if (f.size() == 3 && f[0] == "ret" && f[1] != "m" && valid_val(f[1], f[2])) continue;
+            if (f.size() == 3 && f[0] == "ret" && f[1] != "m" && f[1] != "l" && f[1] != "ul" && f[1] != "ll" && f[1] != "ull" &&
+                valid_val(f[1], f[2])) continue;
             return false;
         }
         return true;
@@ -138,6 +140,10 @@ struct Scenario {
                 const std::string& n = f[1]; const std::string& t = f[2]; const std::string& v = f[3];
                 if (t == "i") e.withIntParameter(n.c_str(), (int) vh::to_i64(v));
                 else if (t == "u") e.withUnsignedIntParameter(n.c_str(), (unsigned int) vh::to_u64(v));
+                else if (t == "l") e.withLongIntParameter(n.c_str(), (long) vh::to_i64(v));
+                else if (t == "ul") e.withUnsignedLongIntParameter(n.c_str(), (unsigned long) vh::to_u64(v));
+                else if (t == "ll") e.withLongLongIntParameter(n.c_str(), (long long) vh::to_i64(v));
+                else if (t == "ull") e.withUnsignedLongLongIntParameter(n.c_str(), (unsigned long long) vh::to_u64(v));
                 else if (t == "s") e.withStringParameter(n.c_str(), keep(vh::unhex(v)));
                 else if (t == "p") e.withPointerParameter(n.c_str(), fake_ptr(0x1000, v));
                 else if (t == "cp") e.withConstPointerParameter(n.c_str(), (const void*) fake_ptr(0x1000, v));
@@ -183,6 +189,10 @@ struct Scenario {
                 const std::string& n = f[1]; const std::string& t = f[2]; const std::string& v = f[3];
                 if (t == "i") c.withIntParameter(n.c_str(), (int) vh::to_i64(v));
                 else if (t == "u") c.withUnsignedIntParameter(n.c_str(), (unsigned int) vh::to_u64(v));
+                else if (t == "l") c.withLongIntParameter(n.c_str(), (long) vh::to_i64(v));
+                else if (t == "ul") c.withUnsignedLongIntParameter(n.c_str(), (unsigned long) vh::to_u64(v));
+                else if (t == "ll") c.withLongLongIntParameter(n.c_str(), (long long) vh::to_i64(v));
+                else if (t == "ull") c.withUnsignedLongLongIntParameter(n.c_str(), (unsigned long long) vh::to_u64(v));
                 else if (t == "s") c.withStringParameter(n.c_str(), keep(vh::unhex(v)));
                 else if (t == "p") c.withPointerParameter(n.c_str(), fake_ptr(0x1000, v));
                 else if (t == "cp") c.withConstPointerParameter(n.c_str(), (const void*) fake_ptr(0x1000, v));
